@@ -146,6 +146,35 @@ Proof.
   - intros. unfold peval, tmono, monoR; cbn. ring.
 Qed.
 
+(* ---- Vect3-valued integrands ---------------------------------------------------------------------------- *)
+(* Vect3-valued integrands: the template instantiated at T = Vect3 is, component by component, the scalar one *)
+Lemma rule_sum_vec3_comp (pr : V3 -> R) rule (f : V3 -> V3) t0 t1 t2 :
+  (forall u v, pr (vadd OpsR u v) = pr u + pr v) -> (forall a u, pr (vscale OpsR a u) = a * pr u) -> pr (vconst 0) = 0 ->
+  pr (rule_sum OpsR (RS_vec3 OpsR) rule f t0 t1 t2) = rule_sum OpsR (RS_scalar OpsR) rule (fun v => pr (f v)) t0 t1 t2.
+Proof.
+  intros Hadd Hsc H0. unfold rule_sum. cbn [rs_add rs_scale rs_zero RS_vec3 RS_scalar fadd fmul f0 OpsR].
+  rewrite <- H0 at 2. generalize (@vconst R 0). induction rule as [|p r IH]; intros acc; cbn [fold_left]; [reflexivity|].
+  rewrite IH, Hadd, Hsc. reflexivity.
+Qed.
+
+Lemma triangle_integration_vec3_comp (pr : V3 -> R) rule (f : V3 -> V3) t0 t1 t2 :
+  (forall u v, pr (vadd OpsR u v) = pr u + pr v) -> (forall a u, pr (vscale OpsR a u) = a * pr u) -> pr (vconst 0) = 0 ->
+  pr (triangle_integration_rule OpsR (RS_vec3 OpsR) rule f t0 t1 t2) =
+  triangle_integration_rule OpsR (RS_scalar OpsR) rule (fun v => pr (f v)) t0 t1 t2.
+Proof.
+  intros Hadd Hsc H0. unfold triangle_integration_rule. cbn [rs_scale RS_vec3 RS_scalar fmul OpsR].
+  rewrite Hsc, (rule_sum_vec3_comp pr) by assumption. reflexivity.
+Qed.
+
+Theorem triangle_integration_vec3_components_lemma rule (f : V3 -> V3) t0 t1 t2 :
+  let r := triangle_integration_rule OpsR (RS_vec3 OpsR) rule f t0 t1 t2 in
+  vx r = triangle_integration_rule OpsR (RS_scalar OpsR) rule (fun v => vx (f v)) t0 t1 t2 /\
+  vy r = triangle_integration_rule OpsR (RS_scalar OpsR) rule (fun v => vy (f v)) t0 t1 t2 /\
+  vz r = triangle_integration_rule OpsR (RS_scalar OpsR) rule (fun v => vz (f v)) t0 t1 t2.
+Proof.
+  cbv zeta. repeat split; apply (triangle_integration_vec3_comp _ rule f t0 t1 t2); intros; reflexivity.
+Qed.
+
 (* ---- refinement ---------------------------------------------------------------------------------------- *)
 Lemma norm2_nonneg (v : V3) : 0 <= norm2 OpsR v.
 Proof. destruct v as [x y z]. unfold norm2, sqr; cbn. nra. Qed.
